@@ -50,7 +50,27 @@ type constEval struct {
 	pk      *packages.Package
 	globals map[*ssa.Global]*cv
 	steps   int
+
+	// hooks for evaluating a piece of a function (one round of a loop, the way out of it); they apply
+	// to the outermost evaluation only
+	override  func(v ssa.Value) *cv // a value given from outside (the byte under examination)
+	startAt   *ssa.BasicBlock       // begin here instead of the entry, as if entered from startPrev
+	startPrev *ssa.BasicBlock
+	startEnv  map[ssa.Value]*cv                                              // values known at the start
+	stopBlock func(next, from *ssa.BasicBlock, val func(ssa.Value) *cv) bool // about to enter next: stop?
+	stopInstr func(in ssa.Instruction) bool                                  // about to execute in: stop?
+	ended     *evalEnd                                                       // how a hooked evaluation ended
 }
+
+// evalEnd: where an evaluation was stopped by a hook.
+type evalEnd struct {
+	block *ssa.BasicBlock // stopBlock: the block about to be entered
+	from  *ssa.BasicBlock
+	instr ssa.Instruction // stopInstr: the instruction about to be executed
+	vals  map[ssa.Value]*cv
+}
+
+var errEvalStopped = fmt.Errorf("stopped by a hook")
 
 // astValue: the value of a constant expression or composite literal of the source.
 func (ce *constEval) astValue(e ast.Expr, t types.Type) *cv {
@@ -299,15 +319,46 @@ func (ce *constEval) exec(p *Prog, fn *ssa.Function, params map[*ssa.Parameter]*
 	}
 	b := fn.Blocks[0]
 	var prev *ssa.BasicBlock
+	hooked := depth == 0
+	keepPhis := false
+	if hooked && ce.startAt != nil {
+		b = ce.startAt
+		for k, v := range ce.startEnv {
+			env[k] = v
+		}
+		if ce.startPrev != nil {
+			prev = ce.startPrev
+		} else {
+			keepPhis = true
+		}
+	}
 	for {
 		var next *ssa.BasicBlock
 		for _, in := range b.Instrs {
 			ce.steps++
-			if ce.steps > 200000 {
+			if ce.steps > 400000 {
 				return nil, fmt.Errorf("evaluation does not terminate")
+			}
+			if hooked && ce.stopInstr != nil && ce.stopInstr(in) {
+				ce.ended = &evalEnd{instr: in, vals: env}
+				return nil, errEvalStopped
+			}
+			if hooked && ce.override != nil {
+				if v, isV := in.(ssa.Value); isV {
+					if ov := ce.override(v); ov != nil {
+						env[v] = ov
+						continue
+					}
+				}
 			}
 			switch x := in.(type) {
 			case *ssa.Phi:
+				if keepPhis {
+					if _, have := env[x]; !have {
+						env[x] = cvU
+					}
+					continue
+				}
 				for i, pr := range b.Preds {
 					if pr == prev {
 						env[x] = val(x.Edges[i])
@@ -570,6 +621,11 @@ func (ce *constEval) exec(p *Prog, fn *ssa.Function, params map[*ssa.Parameter]*
 		if next == nil {
 			return nil, fmt.Errorf("control flow not followed in block %d", b.Index)
 		}
+		if hooked && ce.stopBlock != nil && ce.stopBlock(next, b, val) {
+			ce.ended = &evalEnd{block: next, from: b, vals: env}
+			return nil, errEvalStopped
+		}
 		prev, b = b, next
+		keepPhis = false
 	}
 }
